@@ -397,6 +397,18 @@ def run_case(case):
         if len(set(repr(t.id) for t in members)) != len(members):
             raise OffGrid('duplicate ids among members')
 
+        if case.get('poke_getters'):
+            # what a getter hands out must be a copy: user code that edits the table it got from a calendar (also from
+            # the shared default calendar) must not change any calendar
+            import pjplan.calendar as _cal
+            for c in [_cal.DEFAULT_CALENDAR] + [r.calendar for r in supplied.values()]:
+                try:
+                    tbl = c.get_week_day_hours()
+                    tbl[5] = 8
+                    tbl[0] = 0
+                except Exception:  # noqa - not a weekly calendar, or an immutable answer
+                    pass
+
         # ---- scheduler
         def make():
             kw = {'resources': list(supplied.values()), 'balance_resources': case['balance']}
